@@ -180,7 +180,19 @@ def rand_composite(rng, path_mode, max_inc=4, max_exc=3):
         rng.shuffle(c.patterns)
     elif n_exc:
         c.exclude = []
+        # NEGATE may be on while the exclusions come through exclude=: a `!` / `-` opening an exclude= pattern is then plain text
+        negate_on = rng.random() < 0.3
+        if negate_on:
+            c.flags.add('NEGATE')
+            if rng.random() < 0.3:
+                c.flags.add('MINUSNEGATE')
         for text, pairs, need in exc_groups:
+            if negate_on and len(pairs) == 1 and not need and rng.random() < 0.5:
+                body = tuple(gen.rand_tokens(rng, maxtok=2, depth=0, alpha='ab', kinds=''))
+                toks = (('lit', '-' if 'MINUSNEGATE' in c.flags else '!'),) + body
+                if not gen.ambiguous_adjacency(toks) and gen.in_fragment(toks) and not (body and body[0] == ('lit', '(')):
+                    text = toks[0][1] + gen.ser(body)
+                    pairs = [(text, toks)]
             c.flags |= need
             c.exclude.append(text)
             c.exc.extend(pairs)
